@@ -1177,6 +1177,8 @@ class CodeGenerator(StructuredCodeGenerator):
 
     def lower_function(self, function_name, ast):
         self.current_function = function_name
+        self.loop_nesting_depth = 0
+        self.deferred_deinits = []
 
         self.emit_def_begin(
                 "dagrt_phase_func_" + function_name,
@@ -2128,9 +2130,18 @@ class CodeGenerator(StructuredCodeGenerator):
                     self.expr(ubound-1)),
                 code_generator=self)
         em.__enter__()
+        self.loop_nesting_depth += 1
 
     def emit_for_end(self, loop_var_name):
         self.emitter.__exit__(None, None, None)
+        self.loop_nesting_depth -= 1
+
+        if self.loop_nesting_depth == 0:
+            # Variables whose last use is inside the loop nest are still
+            # needed by later iterations. Release them once the nest is done.
+            for variable, var_kind in self.deferred_deinits:
+                self.emit_variable_deinit(variable, var_kind)
+            del self.deferred_deinits[:]
 
     def emit_assign_expr(self, assignee_sym, assignee_subscript, expr):
         from dagrt.data import Array, UserType
@@ -2327,7 +2338,10 @@ class CodeGenerator(StructuredCodeGenerator):
             last_used_stmt_id = self.last_used_stmt_table[
                     variable, self.current_function]
             if inst.id == last_used_stmt_id and not is_state_variable(variable):
-                self.emit_variable_deinit(variable, var_kind)
+                if self.loop_nesting_depth:
+                    self.deferred_deinits.append((variable, var_kind))
+                else:
+                    self.emit_variable_deinit(variable, var_kind)
 
     def emit_inst_Raise(self, inst):
         # FIXME: Reenable emitting full error message
